@@ -14,6 +14,7 @@ from ..models import platforms as po
 from ..monitor import bump, install, violation
 
 PROP = "C09"
+ANCHORS = ['dep_logic.tags.platform:Platform.compatible_tags', 'dep_logic.tags.tags:EnvSpec._evaluate_platform', 'dep_logic.tags.platform:Arch.get_minimum_manylinux_minor', 'dep_logic.tags.platform:Arch.get_mac_binary_formats']
 RULE = ("Exhaustive grid of the quantifier: manylinux 2.5-2.50 x {x86_64, aarch64, armv7l, ppc64le, ppc64, s390x, "
         "riscv64}; musllinux 1.1-1.5 x the same; macOS 10.4-10.16 and 11-30 (minor 0 and 3) x {x86_64, arm64}; "
         "Windows x {x86, amd64, arm64}; every platform object is obtained through Platform.parse of its string. "
